@@ -1090,32 +1090,49 @@ Lemma joint_settled_gen p pre eR post st sf c r p1 eB p2 sB t orig timeout :
     nget (M5full.targets fs) t = Some x /\ nget (M5full.t_drains x) (goid (e_by eB)) = Some d /\
     M5full.d_cancelled d = true /\ M5full.d_snap d = Some sn /\
     (forall rq, In rq sn -> ~ In rq (M5full.t_inflight x) \/ M5fullFacts.cancelled fs rq = true) /\
-    (exists es rs, In es q1 /\ goid (e_by es) = goid (e_by eB) /\ e_k es = KDrainSnapshot t rs /\ map fst rs = sn).
+    (exists es rs, In es q1 /\ goid (e_by es) = goid (e_by eB) /\ e_k es = KDrainSnapshot t rs /\ map fst rs = sn) /\
+    (exists f1 x1, run M5full.step M5full.init pre = Some f1 /\ nget (M5full.targets f1) t = Some x1 /\
+       forall rq, In rq sn -> ~ In rq (M5full.t_inflight x1) \/ M5fullFacts.cancelled f1 rq = true).
 Proof.
   intros Hrt Hrf HR Epre RB HB Ho Hown.
   destruct (owned_drain_ended_gen _ _ _ _ _ _ _ _ _ _ _ _ _ _ Hrt HR Epre RB HB Ho Hown)
     as (q1 & eE & q2 & o & n & Ep2 & HgE & HkE & Hno & Hcr).
   destruct (Hcr I) as (eC & HinC & HgC & HkC).
   exists q1, eE, q2, o, n.
-  (* the run of the request-level view up to the end event *)
+  (* the run of the request-level view up to the end event, and on to the return *)
   subst pre p2.
-  replace ((p1 ++ eB :: q1 ++ eE :: q2) ++ eR :: post) with ((p1 ++ [eB]) ++ q1 ++ (eE :: q2 ++ eR :: post)) in Hrf
+  replace ((p1 ++ eB :: q1 ++ eE :: q2) ++ eR :: post) with ((p1 ++ [eB]) ++ q1 ++ (eE :: q2) ++ (eR :: post)) in Hrf
     by (rewrite <- !app_assoc; cbn [app]; rewrite <- app_assoc; reflexivity).
   destruct (run_prefix _ _ _ _ _ Hrf) as (fB & RfB & Hrf1).
-  destruct (run_prefix _ _ _ _ _ Hrf1) as (fs & Rfs & _).
+  destruct (run_prefix _ _ _ _ _ Hrf1) as (fs & Rfs & Hrf2).
+  destruct (run_prefix _ _ _ _ _ Hrf2) as (f1 & Rf1 & _).
   pose proof (M5fullDrain.invBDE_run _ _ RfB) as IB.
-  destruct (run_prefix _ _ _ _ _ RfB) as (f0 & Rf0 & Rf1).
-  cbn [run] in Rf1. destruct (M5full.step f0 eB) as [fB'|] eqn:EfB; [|discriminate]. injection Rf1 as ->.
+  destruct (run_prefix _ _ _ _ _ RfB) as (f0 & Rf0 & Rf1').
+  cbn [run] in Rf1'. destruct (M5full.step f0 eB) as [fB'|] eqn:EfB; [|discriminate]. injection Rf1' as ->.
   destruct (M5fullDrainFwd.fbegin_opens _ _ _ _ _ _ EfB HB Ho) as (x0 & Hx0 & Hd0).
   destruct (M5fullDrainFwd.fdrain_run _ _ _ _ _ _ _ IB Rfs Hx0 Hd0 Hno) as (x & d & Hx & Hd & _ & Hcan & Hsnap).
   assert (Rall : run M5full.step M5full.init (p1 ++ eB :: q1) = Some fs).
   { change (p1 ++ eB :: q1) with (p1 ++ [eB] ++ q1). rewrite app_assoc, run_app, RfB. exact Rfs. }
+  assert (Rpre : run M5full.step M5full.init (p1 ++ eB :: q1 ++ eE :: q2) = Some f1).
+  { change (p1 ++ eB :: q1 ++ eE :: q2) with (p1 ++ [eB] ++ q1 ++ (eE :: q2)).
+    rewrite app_assoc, run_app, RfB, run_app, Rfs. exact Rf1. }
   assert (Hc : M5full.d_cancelled d = true) by exact (Hcan _ HinC HgC HkC).
-  destruct (M5fullDrain.invBDE_run _ _ Rall) as (_ & _ & HE).
+  destruct (M5fullDrain.invBDE_run _ _ Rall) as (_ & HD & HE).
   destruct (HE _ _ _ _ Hx (M5fullFacts.nget_In _ _ _ _ Hd) Hc) as (sn & Hsn & Hall).
   exists fs, x, d, sn. repeat split; try assumption.
-  destruct (Hsnap _ Hsn) as [Hbad|(es & rs & Hin & Hg & Hk & Hm)]; [discriminate Hbad|].
-  exists es, rs. repeat split; assumption.
+  - destruct (Hsnap _ Hsn) as [Hbad|(es & rs & Hin & Hg & Hk & Hm)]; [discriminate Hbad|].
+    exists es, rs. repeat split; assumption.
+  - (* settled stays settled up to the return *)
+    assert (Hx1 : exists x1, nget (M5full.targets f1) t = Some x1).
+    { clear -Rf1 Hx. revert fs x Rf1 Hx. generalize (eE :: q2) as tr. induction tr as [|e tr IH]; intros fs x R Hx; cbn [run] in R.
+      - injection R as <-. eauto.
+      - destruct (M5full.step fs e) as [s1|] eqn:E; [|discriminate].
+        destruct (M5fullInv.step_tgt_fwd _ _ _ _ _ E Hx) as (x' & Hx' & _). exact (IH _ _ R Hx'). }
+    destruct Hx1 as (x1 & Hx1). exists f1, x1. split; [exact Rpre|]. split; [exact Hx1|].
+    intros rq Hrq.
+    destruct (HD _ _ _ _ _ _ Hx (M5fullFacts.nget_In _ _ _ _ Hd) Hsn Hrq) as (ph & Hph & Hpc).
+    destruct (M5fullDrainFwd.run_settled _ _ _ _ _ _ _ Rf1 Hx Hph Hpc (Hall _ Hrq)) as (x1' & Hx1' & Hset).
+    rewrite Hx1 in Hx1'. injection Hx1' as <-. exact Hset.
 Qed.
 
 (** ** The statements of props/C03cmd.v (for the repaired rules, [step]) *)
@@ -1228,7 +1245,9 @@ Lemma joint_settled pre eR post st sf c r p1 eB p2 sB t orig timeout :
     nget (M5full.targets fs) t = Some x /\ nget (M5full.t_drains x) (goid (e_by eB)) = Some d /\
     M5full.d_cancelled d = true /\ M5full.d_snap d = Some sn /\
     (forall rq, In rq sn -> ~ In rq (M5full.t_inflight x) \/ M5fullFacts.cancelled fs rq = true) /\
-    (exists es rs, In es q1 /\ goid (e_by es) = goid (e_by eB) /\ e_k es = KDrainSnapshot t rs /\ map fst rs = sn).
+    (exists es rs, In es q1 /\ goid (e_by es) = goid (e_by eB) /\ e_k es = KDrainSnapshot t rs /\ map fst rs = sn) /\
+    (exists f1 x1, run M5full.step M5full.init pre = Some f1 /\ nget (M5full.targets f1) t = Some x1 /\
+       forall rq, In rq sn -> ~ In rq (M5full.t_inflight x1) \/ M5fullFacts.cancelled f1 rq = true).
 Proof.
   intros Hrt Hrf HR Epre RB HB Ho Hcand Hcert.
   exact (joint_settled_gen false _ _ _ _ _ _ _ _ _ _ _ _ _ _ Hrt Hrf HR Epre RB HB Ho (begin_owners_single _ _ _ _ _ Hcand Hcert)).
